@@ -31,17 +31,31 @@ def declare(spec):
               "forall(STR, lambda k: implies(k in msg, not is_ref(msg[k])))")
     spec.pred('msg_int', [('msg', Dict(STR, VAL)), ('k', STR)],
               "ite(k in msg and is_int(msg[k]), as_int(msg[k]), -1)", ret=INT)
+    # what really goes on the wire (taken from the actual arguments of send_multipart / json.dumps, not from the
+    # parameters): first frame = topic bytes, second frame = the JSON text of the dict that was serialised
+    spec.ghost('evwire', List(BYTES))
+    spec.ghost('evbody', List(BYTES))
+    spec.ghost('ev_dumped', Dict(STR, VAL))     # the argument of the last json.dumps in notify_event
+    spec.ghost('ev_dump_out', BYTES)            # ... and its result
+    spec.local_ghosts.update(['evwire', 'evbody', 'ev_dumped', 'ev_dump_out'])
     spec.add(Contract(
         'circus.watcher:Watcher.notify_event', params={'topic': STR, 'msg': Dict(STR, VAL)},
         requires=['serialisable(msg)'],
         ensures=["implies(not isnull(self.evpub_socket) and not self.evpub_socket.closed, "
                  "length(evlog) == length(old(evlog)) + 1 and last(evlog) == "
                  "pubev(ref_id(self), topic, msg_int(msg, 'process_pid'), msg_int(msg, 'exit_code')))",
+                 ('wire-topic', "implies(not isnull(self.evpub_socket) and not self.evpub_socket.closed, "
+                  "length(evwire) == length(old(evwire)) + 1 and "
+                  "ufn('bytes_decode', STR, last(evwire)) == 'watcher.' + self.res_name + '.' + topic)"),
+                 ('wire-body-is-the-message', "implies(not isnull(self.evpub_socket) and not self.evpub_socket.closed, "
+                  "length(evbody) == length(old(evbody)) + 1 and last(evbody) == ev_dump_out and ev_dumped == msg)"),
                  "forall(INT, lambda i: implies(0 <= i and i < length(old(evlog)), evlog[i] == old(evlog)[i]))",
                  "implies(isnull(self.evpub_socket) or self.evpub_socket.closed, evlog == old(evlog))"],
-        modifies=['evlog'],
+        modifies=['evlog', 'evwire', 'evbody', 'ev_dumped', 'ev_dump_out'],
         ghost_at={'send_multipart': ["evlog = evlog + [pubev(ref_id(self), topic, "
-                                     "msg_int(msg, 'process_pid'), msg_int(msg, 'exit_code'))]"]},
+                                     "msg_int(msg, 'process_pid'), msg_int(msg, 'exit_code'))]",
+                                     "evwire = evwire + [args[0][0]]", "evbody = evbody + [args[0][1]]"],
+                  'dumps': ["ev_dumped = args[0]", "ev_dump_out = call_result"]},
     ))
     spec.add(Contract('circus.watcher:Watcher.initialize',
                       params={'evpub_socket': Ref('PubSocket'), 'sockets': VAL, 'arbiter': Ref('Arbiter')},
@@ -442,6 +456,14 @@ def declare(spec):
                   'Process.stopping', 'Process.closed'],
         ghost_at={'notify_event': ["spevlog = ite(args[0] == 'spawn', spevlog + [pubev(ref_id(self), 'spawn', "
                                    "msg_int(args[1], 'process_pid'), 0)], spevlog)"]},
+        # C13: the worker is constructed from the watcher's configured values (cmd after variable substitution)
+        call_requires={'__init__': [
+            ('configured-command', "arg_cmd == val(cmd) and arg_args == self.args"),
+            ('configured-dir-env', "arg_working_dir == self.working_dir and arg_env == self.env"),
+            ('configured-identity', "arg_uid == self.uid and arg_gid == self.gid and arg_shell == self.shell and "
+                                    "arg_rlimits == self.rlimits"),
+            ('sockets-only-with-use-sockets', "arg_use_fds == val(self.use_sockets) and arg_watcher == self"),
+        ]},
         loops={0: Loop(invariant=[
             'spawnlog == old(spawnlog)', "same_field('Watcher.processes')", 'nb_tries >= 0',
             'spevlog == old(spevlog)', 'K_child == old(K_child)', 'wf_w(self)', 'kstep()',
@@ -450,12 +472,8 @@ def declare(spec):
             "ev_pid(hooklog[length(old(hooklog))]) == 1 and forall(INT, lambda i: implies(0 <= i and "
             "i < length(old(hooklog)), hooklog[i] == old(hooklog)[i])))",
             prot(exc=('Watcher.processes', 'spawnlog', 'spevlog', 'K_child')), 'excl == old(excl)', spec.consts['$LOGS'],
-            "forall(Ref('Process'), lambda q: implies(at('loop0_pre', allocated(q)), q.pid == at('loop0_pre', q.pid) and "
-            "q.wid == at('loop0_pre', q.wid) and q.started == at('loop0_pre', q.started) and "
-            "q.stopping == at('loop0_pre', q.stopping) and q.closed == at('loop0_pre', q.closed) and "
-            "q.klog == at('loop0_pre', q.klog) and q.name == at('loop0_pre', q.name) and "
-            "q.naps == at('loop0_pre', q.naps) and q.alive_seen == at('loop0_pre', q.alive_seen) and "
-            "q._worker == at('loop0_pre', q._worker)))",
+        ] + ["forall(Ref('Process'), lambda q: implies(at('loop0_pre', allocated(q)), same(q.%s, at('loop0_pre', q.%s))))"
+             % (f, f) for f in sorted(spec.classes['Process'].fields)] + [
         ], variant_opt='self.max_retry - nb_tries',
             fingerprint='while:nb_tries < self.max_retry or self.max_retry == -1',
             # only failed creation attempts come back to the loop head
